@@ -117,8 +117,9 @@ bool IsBinaryFormat(int fd) {
 void ReadHeader(int fd, Parameters &out) {
   util::SeekOrThrow(fd, sizeof(Sanity));
   util::ReadOrThrow(fd, &out.fixed, sizeof(out.fixed));
-  if (out.fixed.probing_multiplier < 1.0)
-    UTIL_THROW(FormatLoadException, "Binary format claims to have a probing multiplier of " << out.fixed.probing_multiplier << " which is < 1.0.");
+  // Written so that NaN is rejected too.
+  if (!(out.fixed.probing_multiplier >= 1.0))
+    UTIL_THROW(FormatLoadException, "Binary format claims to have a probing multiplier of " << out.fixed.probing_multiplier << " which is not >= 1.0.");
 
   out.counts.resize(static_cast<std::size_t>(out.fixed.order));
   if (out.fixed.order) util::ReadOrThrow(fd, &*out.counts.begin(), sizeof(uint64_t) * out.fixed.order);
